@@ -45,6 +45,8 @@ def run_worker(args, timeout):
 def replay_one(prop, path):
     """Run one saved case in this process; returns (ok, message)."""
     mod = importlib.import_module('vlib.props.' + prop)
+    from . import determinism
+    determinism.pin()
     d = json.load(open(path))
     sub = [s for s in mod.SUBS if s.name == d['sub']][0]
     ctx = core.Ctx(prop, core.load_known(prop))
